@@ -181,8 +181,8 @@ func txnShape(ctx *Ctx, b *strings.Builder) {
 	fmt.Fprintf(b, "Definition migrate_txns : Z := %d.\n\n", mig)
 }
 
-// lockShape: for every method of the in-memory driver, whether the store mutex is taken
-// (Lock immediately followed by a deferred Unlock) before the first access to a field.
+// lockShape: for every method of the in-memory driver, whether every access to a field of the
+// store happens with the store mutex held and the mutex is released on every way out.
 func lockShape(ctx *Ctx, b *strings.Builder) {
 	_, f := parseFile(ctx.Repo, "pool/store/memory/memory.go")
 	var lines []string
@@ -197,8 +197,6 @@ func lockShape(ctx *Ctx, b *strings.Builder) {
 		if typ != "memoryStore" || fd.Name.Name == "Close" {
 			continue
 		}
-		locked := false
-		okShape := true
 		touches := func(n ast.Node) bool {
 			found := false
 			ast.Inspect(n, func(x ast.Node) bool {
@@ -211,24 +209,14 @@ func lockShape(ctx *Ctx, b *strings.Builder) {
 			})
 			return found
 		}
-		stmts := fd.Body.List
-		for i, st := range stmts {
-			if es, ok := st.(*ast.ExprStmt); ok {
-				if c, ok := es.X.(*ast.CallExpr); ok && isSel(c.Fun, recv, "mu", "Lock") {
-					// next statement must be defer recv.mu.Unlock()
-					if i+1 < len(stmts) {
-						if ds, ok := stmts[i+1].(*ast.DeferStmt); ok && isSel(ds.Call.Fun, recv, "mu", "Unlock") {
-							locked = true
-						}
-					}
-					break
-				}
-			}
-			if touches(st) {
-				okShape = false
-				break
-			}
-		}
+		// every access to a field happens with the mutex held, and the mutex is released on every
+		// way out (Lock; defer Unlock, or an explicit Unlock before each return): facts_lockflow.go
+		usesState := touches(fd.Body)
+		flowOK := lockFlowOK(fd.Body,
+			func(e ast.Expr) bool { return isSel(e, recv, "mu", "Lock") },
+			func(e ast.Expr) bool { return isSel(e, recv, "mu", "Unlock") }, touches)
+		locked, okShape := flowOK, true
+		_ = usesState
 		names = append(names, fd.Name.Name)
 		res[fd.Name.Name] = locked && okShape
 	}
@@ -240,6 +228,6 @@ func lockShape(ctx *Ctx, b *strings.Builder) {
 		}
 		lines = append(lines, fmt.Sprintf("(%q, %s)", n, v))
 	}
-	b.WriteString("(* memory driver: method takes the mutex (Lock; defer Unlock) before touching any field *)\n")
+	b.WriteString("(* memory driver: every field access of the method happens with the mutex held; it is released on every way out *)\n")
 	b.WriteString("Definition lock_shape : list (string * bool) :=\n  [" + strings.Join(lines, ";\n   ") + "].\n\n")
 }
